@@ -104,6 +104,10 @@ handshakeLoop:
 			return nil
 		case <-g.quit:
 			return nil
+		case err := <-errChan:
+			// The reader goroutine has given up: nobody would
+			// read the transport any more.
+			return err
 		case b = <-recvChan:
 		}
 
